@@ -19,6 +19,7 @@ package main
 
 import (
 	"fmt"
+	"sort"
 	"strings"
 	"go/constant"
 	"go/token"
@@ -35,12 +36,22 @@ type (
 	cpBool  struct{ V bool }
 	cpFloat struct{ V float64 }
 	cpNil   struct{}
-	// cpUnk is a value the fold knows nothing about; ID tells two of them apart.
-	cpUnk struct{ ID string }
+	// cpUnk is a value the fold knows nothing about; ID tells two of them apart. Deps lists (",3,4,") the
+	// bytes of a symbolic input string the value was computed from, when it was.
+	cpUnk struct {
+		ID   string
+		Deps string
+	}
 	// cpLin is ID*Mul+Add for an unknown integer ID.
 	cpLin struct {
 		ID       string
 		Mul, Add int64
+		Deps     string
+	}
+	// cpStrSym is (a sub-string of) a symbolic input string: the length is known, the bytes are not.
+	cpStrSym struct {
+		ID       string
+		Off, Len int64
 	}
 	cpStruct struct {
 		T types.Type
@@ -124,6 +135,9 @@ type cpOutcome struct {
 	// Decided: the truth assumed for each unknown condition branched on (by
 	// the identity of the unknown; a negated unknown is recorded un-negated).
 	Decided map[string]bool
+	// Failed: this path ran into something the fold has no model for (only with cpTolerant; otherwise the
+	// whole fold fails)
+	Failed string
 }
 
 type cpEngine struct {
@@ -160,11 +174,63 @@ func (e *cpEngine) fresh(hint string) cpUnk {
 	return cpUnk{ID: fmt.Sprintf("%s#%d", hint, e.uid)}
 }
 
+// cpDeps: the input bytes a value depends on.
+func cpDeps(v cpVal) string {
+	switch x := v.(type) {
+	case cpUnk:
+		return x.Deps
+	case cpLin:
+		return x.Deps
+	}
+	return ""
+}
+
+// cpJoinDeps merges dependency lists (each ",i,j," with ascending indices).
+func cpJoinDeps(ds ...string) string {
+	set := map[int]bool{}
+	for _, d := range ds {
+		for _, p := range strings.Split(d, ",") {
+			if p == "" {
+				continue
+			}
+			n := 0
+			fmt.Sscanf(p, "%d", &n)
+			set[n] = true
+		}
+	}
+	if len(set) == 0 {
+		return ""
+	}
+	var idx []int
+	for i := range set {
+		idx = append(idx, i)
+	}
+	sort.Ints(idx)
+	out := ","
+	for _, i := range idx {
+		out += fmt.Sprintf("%d,", i)
+	}
+	return out
+}
+
+func (e *cpEngine) freshDeps(hint string, deps string) cpUnk {
+	u := e.fresh(hint)
+	u.Deps = deps
+	return u
+}
+
 // cpFold folds fn for args and returns every outcome, or ok=false when a
 // budget was exceeded or an instruction is outside what the fold understands.
 // cpMaxOutcomes bounds the number of outcomes of one fold (a rule that needs
 // more for a particular question raises it around its call).
 var cpMaxOutcomes = 96
+
+// cpTolerant: a path that meets something the fold cannot model ends as a "failed" outcome instead of failing
+// the whole fold (budgets still fail it). For questions about one particular kind of outcome.
+var cpTolerant = false
+
+// cpMaxForks bounds the number of undecided branches along one path.
+var cpMaxForks = 28
 
 func cpFold(P *Program, fn *ssa.Function, args []cpVal) (outs []cpOutcome, ok bool, why string) {
 	outs, _, ok, why = cpFoldOpt(P, fn, args, nil)
@@ -175,7 +241,7 @@ func cpFold(P *Program, fn *ssa.Function, args []cpVal) (outs []cpOutcome, ok bo
 // are recorded like calls that leave the module); it also reports the
 // functions folded through.
 func cpFoldOpt(P *Program, fn *ssa.Function, args []cpVal, opaque func(*ssa.Function) bool) (outs []cpOutcome, visited map[*ssa.Function]bool, ok bool, why string) {
-	e := &cpEngine{P: P, MaxOut: cpMaxOutcomes, MaxSteps: 40000, MaxForks: 28, MaxDepth: 8, opaque: opaque, visited: map[*ssa.Function]bool{}}
+	e := &cpEngine{P: P, MaxOut: cpMaxOutcomes, MaxSteps: 40000, MaxForks: cpMaxForks, MaxDepth: 8, opaque: opaque, visited: map[*ssa.Function]bool{}}
 	e.globals = cpInitGlobals(P)
 	defer func() { visited = e.visited }()
 	e.pending = [][]bool{nil}
@@ -201,6 +267,10 @@ func (e *cpEngine) runTop(fn *ssa.Function, args []cpVal) (out cpOutcome, aborte
 			if a, ok := r.(cpAbort); ok {
 				if a.why == "panic-instr" {
 					out = cpOutcome{Panics: true, Calls: e.calls, Decided: e.decided}
+					return
+				}
+				if cpTolerant && !strings.Contains(a.why, "budget") && !strings.Contains(a.why, "too many") && a.why != "call depth" && a.why != "loop bound" {
+					out = cpOutcome{Failed: a.why, Calls: e.calls, Decided: e.decided}
 					return
 				}
 				aborted = a.why
@@ -712,6 +782,14 @@ func (e *cpEngine) eval(fr *cpFrame, v ssa.Value, depth int) cpVal {
 				}
 				return cpInt{int64(b.V[idx.V])}
 			}
+		case cpStrSym:
+			if isI {
+				if idx.V < 0 || idx.V >= b.Len {
+					e.fail("panic-instr")
+				}
+				return cpUnk{ID: fmt.Sprintf("%s[%d]", b.ID, b.Off+idx.V), Deps: fmt.Sprintf(",%d,", b.Off+idx.V)}
+			}
+			e.fail("a symbolic string indexed at an unknown position")
 		}
 		return e.fresh("index")
 	case *ssa.MakeMap:
@@ -740,7 +818,12 @@ func (e *cpEngine) eval(fr *cpFrame, v ssa.Value, depth int) cpVal {
 			return e.resultOf(fr, v, "opaque")
 		}
 		return cl
-	case *ssa.MakeChan, *ssa.Range, *ssa.Next, *ssa.Select, *ssa.SliceToArrayPointer, *ssa.MultiConvert:
+	case *ssa.Range:
+		if _, isSym := e.get(fr, x.X).(cpStrSym); isSym {
+			e.fail("range over a symbolic string")
+		}
+		return e.resultOf(fr, v, "opaque")
+	case *ssa.MakeChan, *ssa.Next, *ssa.Select, *ssa.SliceToArrayPointer, *ssa.MultiConvert:
 		return e.resultOf(fr, v, "opaque")
 	case *ssa.Extract:
 		t := e.get(fr, x.Tuple)
@@ -777,6 +860,9 @@ func (e *cpEngine) eval(fr *cpFrame, v ssa.Value, depth int) cpVal {
 			if i, ok := a.(cpInt); ok {
 				return e.wrap(cpInt{^i.V}, x.Type())
 			}
+		}
+		if d := cpDeps(a); d != "" {
+			return e.freshDeps("unop", d)
 		}
 		return e.resultOf(fr, v, "unop")
 	case *ssa.BinOp:
@@ -837,7 +923,7 @@ func (e *cpEngine) eval(fr *cpFrame, v ssa.Value, depth int) cpVal {
 			if isAddr(x.X.Type()) && isAddr(x.Type()) {
 				return a
 			}
-			return e.fresh("conv")
+			return e.freshDeps("conv", cpDeps(a))
 		}
 		return e.fresh("conv")
 	case *ssa.MakeInterface:
@@ -1127,17 +1213,30 @@ func (e *cpEngine) binop(x *ssa.BinOp, a, b cpVal) cpVal {
 			}
 		}
 	}
-	if b, ok := x.Type().Underlying().(*types.Basic); ok && b.Info()&types.IsBoolean != 0 {
-		return e.fresh("cmp")
+	deps := cpJoinDeps(cpDeps(a), cpDeps(b))
+	if bt, ok := x.Type().Underlying().(*types.Basic); ok && bt.Info()&types.IsBoolean != 0 {
+		// an unknown compared with an integer constant keeps a name, so that what was assumed about it can be read
+		// off the outcome ("cmp:<id><op><k>")
+		if au, isU := a.(cpUnk); isU {
+			if bk, isK := b.(cpInt); isK {
+				return cpUnk{ID: fmt.Sprintf("cmp:%s%s%d", au.ID, x.Op, bk.V), Deps: deps}
+			}
+		}
+		if bu, isU := b.(cpUnk); isU {
+			if ak, isK := a.(cpInt); isK {
+				return cpUnk{ID: fmt.Sprintf("cmp:%s%s%d", bu.ID, swapOp(x.Op), ak.V), Deps: deps}
+			}
+		}
+		return e.freshDeps("cmp", deps)
 	}
-	return e.fresh("binop")
+	return e.freshDeps("binop", deps)
 }
 
 func (e *cpEngine) linear(op token.Token, u cpVal, k int64, x *ssa.BinOp) cpVal {
 	var l cpLin
 	switch y := u.(type) {
 	case cpUnk:
-		l = cpLin{ID: y.ID, Mul: 1}
+		l = cpLin{ID: y.ID, Mul: 1, Deps: y.Deps}
 	case cpLin:
 		l = y
 	default:
@@ -1266,6 +1365,24 @@ func (e *cpEngine) evalCall(fr *cpFrame, x *ssa.Call, depth int) cpVal {
 	}
 	if res == nil {
 		res = e.resultOf(fr, x, "call:"+x.Name())
+		var ds []string
+		for _, a := range e.calls[len(e.calls)-1].Args {
+			ds = append(ds, cpDeps(a))
+		}
+		if d := cpJoinDeps(ds...); d != "" {
+			switch r := res.(type) {
+			case cpUnk:
+				r.Deps = d
+				res = r
+			case cpTuple:
+				for i, v := range r.Vs {
+					if u, ok := v.(cpUnk); ok {
+						u.Deps = d
+						r.Vs[i] = u
+					}
+				}
+			}
+		}
 	}
 	e.calls[len(e.calls)-1].Result = res
 	return res
